@@ -60,7 +60,7 @@ class Skeleton:
         path_a, path_g = b"/'g'/'a'", b"/'g'"
         for si in range(2):
             md = []
-            self._raw(tag)
+            self._field('tag%d' % si, 4, False, int.from_bytes(tag, 'little'))
             self._field('toc%d' % si, 4, True, 2 | 4 | 8)
             self._field('version%d' % si, 4, True, 4713)
             nso_i = self._field('nso%d' % si, 8, False, 0)
@@ -190,6 +190,9 @@ def _symval(ctx, sk, fi):
     v = ctx.int('field_' + name, 0, 2 ** (8 * width) - 1)
     if name.startswith('type') or name.startswith('ptype'):
         ctx.add(z3.Or(*[v.e == c for c in TYPE_CODES]))
+    if name.startswith('tag'):
+        # the two valid tags, one wrong in each byte, or anything else
+        pass
     if name.startswith('nso') or name.startswith('rdo') or name.startswith('nvalues'):
         # offsets / counts: every value up to 256 (well beyond the 100-byte file) or the 'length unknown' marker
         ctx.add(z3.Or(v.e <= 256, v.e == 2 ** (8 * width) - 1))
@@ -432,15 +435,19 @@ def replay(art):
         before = _fds()
         raised = None
         tf = None
+
+        def leaked():
+            return [v for k, v in _fds().items() if k not in before and v.startswith(d)]
+        lk_on_raise = []
         try:
             tf = {'read': TdmsFile.read, 'read_metadata': TdmsFile.read_metadata}.get(api, TdmsFile.open)(arg)
         except Exception as e:
             raised = type(e).__name__
-
-        def leaked():
-            return [v for k, v in _fds().items() if k not in before and v.startswith(d)]
+            # look while the caller still holds the exception (afterwards CPython's reference counting would
+            # collect the abandoned file object and hide the leak)
+            lk_on_raise = leaked()
         if raised is not None or api in ('read', 'read_metadata'):
-            lk = leaked()
+            lk = lk_on_raise if raised is not None else leaked()
             if lk:
                 return dict(sig=signature(dict(task=task, what='handle-left-open', api=api)), leaked=lk, raised=raised)
             if caller is not None and caller.closed:
